@@ -17,9 +17,10 @@ class V:
 class SV(V):
     """A symbolic Python value: a z3 term of sort Val, with sound Python-side hints."""
 
-    __slots__ = ('term', 'kind', 'cls', 'exact')
+    __slots__ = ('term', 'kind', 'cls', 'exact', 'tag')
 
-    def __init__(self, term, kind=None, cls=None, exact=False):
+    def __init__(self, term, kind=None, cls=None, exact=False, tag=None):
+        self.tag = tag
         self.term = term
         self.kind = kind  # None | 'none' | 'bool' | 'int' | 'str' | 'ref'
         self.cls = cls  # ClassInfo upper bound of the dynamic class (for refs), or None
@@ -217,6 +218,7 @@ class St:
         st.CL = z3.Const(f'CL{tag}', smt.CLSort)
         st.A = z3.Const(f'A{tag}', smt.Int)
         st.TR = z3.Const(f'TR{tag}', smt.SeqV)
+        st.ghost['OWN'] = z3.Const(f'OWN{tag}', z3.ArraySort(smt.Int, smt.Bool))
         return st
 
 
